@@ -59,7 +59,9 @@ def short(case):
             "noise_free": case["noise_free"], "units(x,y)": case.get("scale", [1.0, 1.0]),
             "x[:3]": case["x"][:3], "y[:3]": case["y"][:3],
             **({"callable": case["callable"]} if case.get("callable") else {}),
-            **({"hist": case["hist"]} if case.get("hist") else {})}
+            **({"hist": case["hist"]} if case.get("hist") else {}),
+            **({"faults_before_the_fit": case["faults"]} if case.get("faults") else {}),
+            **({"equal_params": case["equal_params"]} if case.get("equal_params") else {})}
 
 
 def tag(case):
@@ -104,6 +106,14 @@ def scenario_counts(c, dist):
         if "x" in R:
             dist["repeated-measurements:x:" + R["x"]["kind"]] += 1
         dist["repeated-measurements:" + R["how"]] += 1
+    for fl in c.get("faults") or []:
+        dist["rejected-request-before-the-fit:entry:" + fl[0]] += 1
+        dist["rejected-request-before-the-fit:invalid:" + fl[1]] += 1
+        dist["rejected-request-before-the-fit:valid-other-side:" + (
+            "none" if fl[2] is None else "per-point" if isinstance(fl[2], list) else "common")] += 1
+        dist["rejected-request-before-the-fit:data-objects:" + c["form"]] += 1
+    if c.get("equal_params"):
+        dist["fitted-parameters-exactly-equal:" + c["equal_params"]] += 1
     if c.get("signs"):
         dist["parameter-branch:{}:{}".format(c["model"], c["signs"])] += 1
     if c.get("parnames"):
@@ -116,6 +126,19 @@ def scenario_counts(c, dist):
             nm = (c.get("callable") or {}).get("name")
             if nm in G.PRESET_POLY:
                 dist["user-polynomial-named-like-a-preset-polynomial"] += 1
+
+
+def fault_accepted(o, dist):
+    """the rejected requests before the fit (fitgen FAULT NOTES): counted by how they were rejected;
+    a request the library ACCEPTED (with whatever meaning) leaves the data something else than the
+    case says -- such a case is not judged (counted)"""
+    acc = False
+    for entry, kind, how in o.get("fault_log", []):
+        dist["rejected-request-before-the-fit:answered-with:" + how] += 1
+        acc = acc or how == "accepted"
+    if acc:
+        dist["skipped-invalid-request-was-accepted"] += 1
+    return acc
 
 
 def fail(sig, what, case, **kw):
@@ -358,6 +381,9 @@ def run_c06(ctx, cases, ref=False):
                 dist["xrange:low-bound-on-a-data-point"] += 1
             if c["xrange"][1] in c["x"]:
                 dist["xrange:high-bound-on-a-data-point"] += 1
+        if fault_accepted(o, dist):
+            skipped += 1
+            continue
         if "exception" in o:
             raised.append((c, o))
             continue
@@ -621,6 +647,9 @@ def run_c07(ctx, cases, ref=False):
                  "history:fit_function-evaluated-before-and-after"] += 1
         else:
             dist["history:none"] += 1
+        if fault_accepted(o, dist):
+            skipped += 1
+            continue
         if "exception" in o and c["sy"] == "yzeros":
             # the library's first pass (sigma = sigma_y, some exactly 0) is not a least-squares
             # problem; when it does not get through the case says nothing
